@@ -7,7 +7,8 @@ import decsuite as ds
 import gen
 import msggen
 
-THEOREMS = ["decodeStream_acct", "C09.c09_stream_step", "C09.c09_stream_end", "decodeStream_ok", "specStream_inner", "stream_run",
+THEOREMS = ["C09.c09_stream_of_arbitrary_messages", "stream_is_chain", "decode_sh", "decodeCommand_sh", "decodeResponse_sh",
+            "decodeStream_acct", "C09.c09_stream_step", "C09.c09_stream_end", "decodeStream_ok", "specStream_inner", "stream_run",
             "MsgWF.c09_stream", "MsgWF.c09_stream_cons", "MsgWF.c01_command", "MsgWF.c01_response",
             "decodeStream_sound", "AcceptIff.stream_accept_iff",
             "C09.c09_objects", "C09.c09_objects_of_accepted", "e2oStream_groups", "separate_stream", "cmd_events_to_obj", "rsp_events_to_obj"]
@@ -205,9 +206,10 @@ def run(ctx, replay_case):
     })
 
 
-PROP = {"targets": ["TpmProofs.Props.C09E"], "module": "TpmProofs.Props.C09E", "theorems": THEOREMS, "run": run,
-        "assumptions": ["the pairing theorem (MsgWF.c09_stream) is over well-formed exchanges (`specStream`, TpmModel/MsgSpec.lean); for streams with a "
-                        "malformed message the equality with per-message decodes is monitored + tied by correspondence, the stream loop's "
-                        "step and termination behaviour are theorems",
+PROP = {"targets": ["TpmProofs.Props.C09E", "TpmProofs.Props.C09S"], "module": ["TpmProofs.Props.C09E", "TpmProofs.Props.C09S"],
+        "checker_modules": ["TpmProofs.Props.C09E", "TpmProofs.Props.C09S"], "theorems": THEOREMS, "run": run,
+        "assumptions": ["the pairing is a theorem for well-formed exchanges with exact observations (MsgWF.c09_stream) and, in either mode, for ARBITRARY messages "
+                        "whose own decodes complete and consume exactly their bytes (C09.c09_stream_of_arbitrary_messages, from the shift equation of "
+                        "TpmProofs/Shift.lean); streams in which a message's own decode fails or runs out of input are monitored + tied by correspondence",
                         "'one object per message' (events_to_objs) is a theorem for every cleanly ending stream (C09.c09_objects) over the model "
                         "`separateEvents`/`e2oStream`, tied by the E2OS correspondence; for streams that raise it is tied by correspondence only"]}
